@@ -16,12 +16,18 @@ Record bln_in := { bi_pin_cpu : bool; bi_pin_mem : bool; bi_type_pin_mem : optio
 Definition bln_pin_mem_eff (i : bln_in) : bool := match bi_type_pin_mem i with Some b => b | None => bi_pin_mem i end.
 (* pinCpuMem *)
 Definition bln_sets_cpus (i : bln_in) : bool := bi_pin_cpu i.
-Definition bln_sets_mems (i : bln_in) : bool := bln_pin_mem_eff i.   (* for memory.preserve the value written is the preserved one *)
+(* a memory-preserving container is accounted in the memory allocator but its pinning is never written
+   (since the repair of the preserved-container rewrite) *)
+Definition bln_sets_mems (i : bln_in) : bool := bln_pin_mem_eff i && negb (bi_mem_preserve i).
+(* allocMem's loop over the OTHER containers the allocator moved: same rule, per moved container *)
+Definition bln_moved_sets_mems (o : bln_in) : bool := bln_pin_mem_eff o && negb (bi_mem_preserve o).
 
 (* correspondence: (decision inputs, observed: cpus written?, mems written?) *)
 Definition ta_case_ok (c : ta_in * bool * bool) : bool :=
   let '(i, wc, wm) := c in Bool.eqb (ta_sets_cpus i) wc && Bool.eqb (ta_sets_mems i) wm.
 Definition bln_case_ok (c : bln_in * bool * bool) : bool :=
   let '(i, wc, wm) := c in Bool.eqb (bln_sets_cpus i) wc && (implb wm (bln_sets_mems i)).
+(* a container other than the one the request is about, whose memory nodes were written in the request *)
+Definition bln_moved_case_ok (o : bln_in) : bool := bln_moved_sets_mems o.
 Fixpoint bad_cases {A} (ok : A -> bool) (i : nat) (cs : list A) : list nat :=
   match cs with [] => [] | c :: cs' => (if ok c then [] else [i]) ++ bad_cases ok (S i) cs' end.
